@@ -91,7 +91,12 @@ def run_once(c, stop_after=None):
         lsm.recover_from_crash()
         m2 = table_py(lsm._memtable._data.items())
         vals2 = [lsm.get_sync(kname(k)) for k in range(c["nkeys"])]
-        st["crash"] = dict(pre=pre, vals=vals, m1=m1, m2=m2, vals2=vals2)
+        # a second crash + recovery with no write in between (oracle only; not part of the Coq comparison)
+        lsm.crash()
+        lsm.recover_from_crash()
+        m3 = table_py(lsm._memtable._data.items())
+        vals3 = [lsm.get_sync(kname(k)) for k in range(c["nkeys"])]
+        st["crash"] = dict(pre=pre, vals=vals, m1=m1, m2=m2, vals2=vals2, m3=m3, vals3=vals3)
         st["dead"] = True
 
     class Worker(Entity):
@@ -182,6 +187,9 @@ def oracle_durable(c, obs):
         synced = cr["pre"]["wal"]["synced"]
         if cr["vals"] != cr["vals2"] or cr["m1"] != cr["m2"]:
             fails.append(dict(clause="durable: recovering twice gives the same state as recovering once", crash_after=k))
+        if "vals3" in cr and (cr["vals"] != cr["vals3"] or cr["m1"] != cr["m3"]):
+            fails.append(dict(clause="durable: crashing and recovering a second time (no write in between) gives the same state",
+                              crash_after=k, first=cr["vals"], second=cr["vals3"]))
         for key in range(c["nkeys"]):
             writes = [o for o in seq_of if c["ops"][o][1][1] == key]
             durable = [o for o in writes if seq_of[o] <= synced]
